@@ -23,6 +23,9 @@ func GenC08(seed uint64, run int) *Trace {
 		keys = append(keys, BlkSpec{Kind: Pick(r, []string{"raw", "raw", "cbor", "s512", "sha1"}), Seed: uint64(10 + i), Size: r.Range(0, 24)})
 	}
 	ss := &SchedSpec{Target: target, PickSeed: r.U64(), MaxSteps: 20000}
+	if target == "dw" && r.Bool() {
+		ss.Callbacks = r.Range(1, 2)
+	}
 	nclients := r.Range(2, 4)
 	if r.Chance(1, 6) {
 		nclients = r.Range(5, 16)
